@@ -504,7 +504,12 @@ class ExprSynthesizer(AstVisitor[tuple[ast.expr, Type]]):
             )
             # Make a closure by partially applying the `self` argument
             # TODO: Try to infer some type args based on `self`
-            result_ty = FunctionType(func.ty.inputs[1:], func.ty.output, func.ty.params)
+            result_ty = FunctionType(
+                func.ty.inputs[1:],
+                func.ty.output,
+                func.ty.params,
+                unitary_flags=func.ty.unitary_flags,
+            )
             return with_loc(node, PartialApply(func=name, args=[node.value])), result_ty
         raise GuppyTypeError(AttributeNotFoundError(attr_span, ty, node.attr))
 
